@@ -157,6 +157,18 @@ def table_fits(tab):
     return True
 
 
+def table_fits_records(tab):
+    """header-less table (NOLABEL): at least one column, every row one fitting cell per column"""
+    if not tab["cols"]:
+        return False
+    for r in tab["rows"]:
+        if len(r) != len(tab["cols"]) or not all(cell_ok(c) for c in r):
+            return False
+        if not all(fits_field(col, render_cell(c)) for col, c in zip(tab["cols"], r)):
+            return False
+    return True
+
+
 def render_title(tab):
     w = tab["now"]
     s = "TABLE NO." + str(tab["number"]).rjust(w)
@@ -420,7 +432,7 @@ GEN_COLS = ["ID", "TIME", "DV", "PRED", "IPRED", "CWRES", "RES", "WRES", "MDV", 
 def gen_generic(rng, hostile):
     r = rng.random()
     notitle = r < 0.3
-    nolabel = notitle and rng.random() < 0.25
+    nolabel = rng.random() < (0.3 if notitle else 0.08)     # NOHEADER, or NOLABEL alone (title lines stay)
     ntab = 1 if notitle else rng.choice([1, 1, 2, 3])
     ncol = rng.randint(1, 7)
     names = rng.sample(GEN_COLS, ncol)
@@ -429,7 +441,7 @@ def gen_generic(rng, hostile):
     tables = []
     base = rng.choice([0, 0, 0, 8, 41, 97])
     for k in range(base, base + ntab):
-        nrow = rng.randint(0 if not nolabel else 1, 12)
+        nrow = rng.randint(0 if not nolabel else 1, 12)   # a NOLABEL table without records is an empty file
         rows = [[gen_sci(rng, d=d, zero_p=0.15, wide=hostile and rng.random() < 0.1) for _ in range(ncol)] for _ in range(nrow)]
         tables.append({"number": k + 1, "now": 3, "title": None, "hw": w, "names": names, "cols": [[w, "r"]] * ncol,
                        "rows": rows, "repeat": rng.choice([0, 0, 1, 2, 3, 5])})
@@ -564,7 +576,10 @@ def corpus_cases():
                                              [_S(20000, 0, 4), _S(0, 0, 4), _S(0, 0, 4)]]}]}
     gen2 = {**gen, "seed": 5, "nolabel": False, "notitle": False,
             "tables": [{**gen["tables"][0], "repeat": 1}, {**gen["tables"][0], "number": 2, "repeat": 2}]}
-    return [ext, ext2, ext3, gen, gen2]
+    # NOLABEL alone: title lines stay, no header line (known: first record still lost on this path)
+    gen3 = {**gen, "seed": 6, "nolabel": True, "notitle": False,
+            "tables": [{**gen["tables"][0]}, {**gen["tables"][0], "number": 2}]}
+    return [ext, ext2, ext3, gen, gen2, gen3]
 
 
 def shrink(case):
@@ -772,7 +787,7 @@ def read_code(path, case):
 
 def compare_model(case, lines, tf, ferr, drv, k, tags):
     kind = case["kind"]
-    ans = drv.ask(["file", kind if not case["notitle"] else "generic", case["notitle"], lines])
+    ans = drv.ask(["file", kind if not case["notitle"] else "generic", case["notitle"], case["nolabel"], lines])
     if is_err(ans):
         if ans[1] == "unmodelled":
             tags.append("k-skip:unmodelled")
@@ -990,12 +1005,19 @@ def monitors(case, tf, ferr, mon, tags):
         names = [exp_colname(x, typed) for x in spec["names"]]
         exp_rows = [[cell_value(c) for c in r] for r in spec["rows"]]
         if case["nolabel"]:
-            # no header line was written: every written row must be a data row
+            # no header line was written: every written record is a data row, columns are labelled by position
             df = t._df
-            got = len(df)
-            if got != len(exp_rows):
-                mon.append({"cls": "nolabel-first-row-lost",
-                            "what": f"NOLABEL table with {len(exp_rows)} records: {got} records read (first record taken as header {list(df.columns)})"})
+            if not exp_rows:
+                continue
+            cls = "nolabel-first-row-lost" if case["notitle"] else "nolabel-titled-first-row-lost"
+            if len(df) == len(exp_rows) - 1:
+                mon.append({"cls": cls, "what": f"table {n}: NOLABEL table with {len(exp_rows)} records: {len(df)} records read "
+                            f"(first record taken as header {list(df.columns)})"})
+                continue
+            if list(map(str, df.columns)) != [str(i) for i in range(len(spec["cols"]))]:
+                mon.append({"cls": "labels-differ", "what": f"table {n}: NOLABEL table: columns {list(df.columns)}, expected positions"})
+                continue
+            mon_values(f"table {n}", "values-differ", exp_rows, [list(r) for r in df.itertuples(index=False, name=None)], mon)
             continue
         df = t._df
         if list(map(str, df.columns)) != names:
@@ -1280,7 +1302,7 @@ def run_case(case, drv):
     if not POSTS:
         _load_posts()
     tabs = case["tables"]
-    fits = all(table_fits(t) and title_fits(t) for t in tabs)
+    fits = all((table_fits_records(t) if case["nolabel"] else table_fits(t)) and title_fits(t) for t in tabs)
     lines = []
     for t in tabs:
         lines += table_lines(t, case)
@@ -1288,7 +1310,8 @@ def run_case(case, drv):
     if drv is not None:
         for t in tabs:
             ans = drv.ask(["renderbody", t["hw"], t["names"], t["cols"], t["rows"]])
-            if ans[0] != render_body(t) or ans[1] != ("true" if table_fits(t) else "false"):
+            if ans[0] != render_body(t) or ans[1] != ("true" if table_fits(t) else "false") or \
+                    ans[2] != ("true" if table_fits_records(t) else "false"):
                 k.append(f"writer: Lean spec {str(ans)[:200]} python {render_body(t)[:2]} fits={table_fits(t)}")
             ti = t["title"]
             if ti is None:
